@@ -150,12 +150,20 @@ def _reshape_target(rng, shape):
     return tgt
 
 
-def _gen(rng, op):
+def _gen(rng, op, long=False):
     minnd = {"tril": 2, "triu": 2, "rot90": 2, "take": 1, "shuffle": 1, "diff": 1, "block": 1, "pad": 1}.get(op, 0)
     maxlen = 7
     shape = A.rand_shape(rng, maxnd=3, maxlen=maxlen, minnd=minnd)
     if op in ("pad", "shuffle") and rng.random() < 0.9:
         shape = tuple(max(1, s) for s in shape)
+    longchunks = None
+    if long:
+        # one long, unevenly chunked axis: a chunk of more than 255 elements next to small ones, so that in-chunk
+        # positions leave the range of the compact integer dtypes take/shuffle use for them
+        small = [rng.randint(1, 30) for _ in range(rng.randint(2, 5))]
+        small.insert(rng.randrange(len(small) + 1), rng.randint(257, 600))
+        longchunks = small
+        shape = (sum(small),) if rng.random() < 0.6 else rng.choice(((2, sum(small)), (sum(small), 2)))
     nd = len(shape)
     c = {"op": op}
     if op == "reshape":
@@ -342,6 +350,10 @@ def _gen(rng, op):
             c.update(shift=[rng.randint(-9, 9) for _ in range(k)], axis=[rng.randrange(-nd, nd) for _ in range(k)])
     c.update(shape=list(shape), chunks=[list(x) for x in A.rand_chunks(rng, shape)], dtype=rng.choice(DT), seed=rng.randrange(2 ** 31),
              threads=rng.random() < 0.1)
+    if longchunks:
+        c["chunks"] = [list(longchunks) if n == sum(longchunks) else [n] for n in shape]
+        c["dtype"] = rng.choice(("int64", "float64"))
+        c["family"] = "long-axis"
     if c["dtype"] == "datetime64[ns]":
         for s2 in c.get("secs", []) + [c[k] for k in ("pre", "app") if isinstance(c.get(k), dict)]:
             s2["dtype"] = "datetime64[ns]"
@@ -364,6 +376,8 @@ def cases(tier, seed):
     n = 4600 if tier == "quick" else 100000
     for _ in range(n):
         yield _gen(rng, rng.choice(OPS))
+    for _ in range(120 if tier == "quick" else 1500):
+        yield _gen(rng, rng.choice(("take", "take", "shuffle")), long=True)
 
 
 # ------------------------------------------------------------------------------------------------ execution
